@@ -720,7 +720,7 @@ pub fn op_strategy_ext(dim: usize, mix: OpMix, extreme: bool) -> BoxedStrategy<O
     let pspec = if extreme {
         prop_oneof![
             6 => point_spec(dim),
-            2 => (-15i8..=15, -50i16..=50).prop_map(|(e, m)| PointSpec::Extreme(e, m)),
+            2 => (prop_oneof![3 => -15i8..=15, 1 => -120i8..=120], -50i16..=50).prop_map(|(e, m)| PointSpec::Extreme(e, m)),
             1 => (0u8..3, 0u8..5).prop_map(|(k, a)| PointSpec::NonFinite(k, a)),
         ]
         .boxed()
